@@ -71,6 +71,11 @@ TABLES: List[Tuple[str, List[Tuple[int, str]]]] = [
     ("two models, each with chains A and B", [(1, "A"), (1, "B"), (2, "A"), (2, "B")]),
     ("model 1 = chain A, model 2 = chain B", [(1, "A"), (2, "B")]),
     ("three models of one atom each, same chain", [(1, "A"), (2, "A"), (3, "A")]),
+    # rows whose (model, chain) sequence is not sorted: the order of the rows is data, the writer has to keep it
+    ("chain B listed before chain A", [(1, "B"), (1, "B"), (1, "A"), (1, "A")]),
+    ("hetero atoms of chain A listed after chain B", [(1, "A"), (1, "A"), (1, "B"), (1, "A")]),
+    ("model 2 listed before model 1", [(2, "A"), (2, "A"), (1, "A"), (1, "A")]),
+    ("lower-case chain before upper-case chain", [(1, "b"), (1, "B")]),
 ]
 
 
@@ -135,13 +140,18 @@ def write_pdb_callable(repo):
             continue
         names.add(n)
         todo += [astq.callee_name(c) for c in ast.walk(m.funcs[n].node) if isinstance(c, ast.Call) and astq.callee_name(c) in m.funcs]
-    env: Dict[str, Any] = {"io": Obj("io", StringIO=Buffer), "StringIO": Buffer}
+    from sa.frame import pd_namespace
+
+    env: Dict[str, Any] = {"io": Obj("io", StringIO=Buffer), "StringIO": Buffer, "pd": pd_namespace()}
     env.update(module_callables(repo, M, names=names, outer=env))
     return wp, func_callable(repo, M, wp.node, env, max_steps=40000)
 
 
 def run_write_pdb(call, fmt: str, rows: List[Dict[str, Any]]) -> List[str]:
-    df = Obj("df", attrs={"format": fmt}, empty=not rows, iterrows=lambda: list(enumerate(rows)), columns=list(rows[0]) if rows else [])
+    from sa.frame import frame_from_rows
+
+    # the table as the readers build it (sa/frame.py, the stand-in for pandas): row labels 0..n-1, missing values as None
+    df = frame_from_rows(rows, fmt)
     text = call(df, None)
     if not isinstance(text, str):
         raise Unknown("write_pdb(df, None) does not return text")
@@ -160,6 +170,7 @@ def check_write_pdb_eval(chk) -> bool:
     trip_bad: Dict[str, Any] = {}
     width_bad: List[str] = []
     model_bad: List[str] = []
+    perm_bad: List[Tuple[str, str]] = []
     n_tables = n_ter = n_atoms = 0
     try:
         for fmt in ("PDB", "mmCIF"):
@@ -181,6 +192,12 @@ def check_write_pdb_eval(chk) -> bool:
                 n_tables += 1
                 want = expected_records(pdb_rows)
                 got = [_kind(l) for l in lines]
+                # the atom records, in the order written, are the rows of the table in their order (serials identify the rows)
+                written = [str((v2_decode(repo, l)[0] or {}).get("serial")).strip() for l in lines if _kind(l) == "ATOM"]
+                serials = [str(r["serial"]) for r in pdb_rows]
+                if written != serials and sorted(written) == sorted(serials):
+                    perm_bad.append((f"{fmt} table, {tag}", f"rows with serials {serials} are written in the order {written}"))
+                    continue
                 if got != [w for w, _ in want]:
                     k = next((i for i in range(min(len(got), len(want))) if got[i] != want[i][0]), min(len(got), len(want)))
                     g = got[k] if k < len(got) else "<end of file>"
@@ -248,6 +265,16 @@ def check_write_pdb_eval(chk) -> bool:
             chk.ok("model-line", site, "evaluated: MODEL serial is written right-justified to columns 11-14")
         if width_bad:
             chk.violation("ter-line", site, width_bad[0], K(wp, "line-width"))
+        if perm_bad:
+            where, what = perm_bad[0]
+            chk.violation(
+                "pdb-round-trip",
+                site,
+                f"{where}: {what} - the atom records are not written in the order of the table's rows, so the table read back is a permutation of the table written "
+                "(record positions, ascending serials and the residues a TER closes change); the order of the rows is part of the data",
+                K(wp, "row-order"),
+                found=[f"{a}: {b}" for a, b in perm_bad[:4]],
+            )
         if trip_bad:
             for where, d in trip_bad.items():
                 bits = "; ".join(f"{f}: `{w}` written, `{g}` read back" if f != "line" else str(w if isinstance(w, str) else (w, g)) for f, (w, g) in ((f, v if isinstance(v, tuple) else (v, None)) for f, v in d.items()))
